@@ -1081,6 +1081,117 @@ func ruleDupComplete(c *Ctx) []Obligation {
 	if len(fields) == 0 {
 		obs = append(obs, undecided(R, "in-place mutated entry fields found", c.Pos(deep.Pos()), "no in-place mutation of a reference-kinded Entry field found anywhere: the effect scan is broken"))
 	}
+	// Slice fields that are appended to on entries that are not fresh (x.F = append(x.F, …)): the struct copy
+	// shares the backing array, so an append into spare capacity writes storage every copy sees. The copier must
+	// give the copy its own array or clip the slice (three-index slice with max == len).
+	appended := map[*types.Var]string{}
+	for _, fn := range c.Funcs {
+		if fn.Pkg == nil && fn.Parent() == nil {
+			continue
+		}
+		eachInstr(fn, func(in ssa.Instruction) {
+			var target ssa.Value // the slice value appended to
+			var app *ssa.Call
+			switch x := in.(type) {
+			case *ssa.Store:
+				app, _ = x.Val.(*ssa.Call)
+			case *ssa.MapUpdate:
+				app, _ = x.Value.(*ssa.Call)
+			}
+			if app == nil {
+				return
+			}
+			if b, isB := app.Call.Value.(*ssa.Builtin); !isB || b.Name() != "append" || len(app.Call.Args) == 0 {
+				return
+			}
+			target = app.Call.Args[0]
+			// the appended-to slice is (an element of) a field of an Entry
+			var f *types.Var
+			var base ssa.Value
+			backSlice(target, func(y ssa.Value) bool {
+				if f != nil {
+					return false
+				}
+				if owner, ff, b := loadedField(y); ff != nil && owner == m.entry {
+					f, base = ff, b
+					return false
+				}
+				switch y.(type) {
+				case *ssa.Lookup, *ssa.UnOp, *ssa.Phi:
+					return true
+				}
+				return y == target
+			})
+			if f == nil || c.freshRootAt(base, in, 0) {
+				return
+			}
+			if fn == deep {
+				return
+			}
+			if _, seen := appended[f]; !seen {
+				appended[f] = fmt.Sprintf("%s @ %s", c.FnName(fn), c.InstrPos(in))
+			}
+		})
+	}
+	var afields []*types.Var
+	for f := range appended {
+		afields = append(afields, f)
+	}
+	sort.Slice(afields, func(i, j int) bool { return afields[i].Name() < afields[j].Name() })
+	for _, f := range afields {
+		con := fmt.Sprintf("%s gives the copy its own Entry.%s array or clips it (appended to elsewhere)", c.FnName(deep), f.Name())
+		okc, how := false, ""
+		eachInstr(deep, func(in ssa.Instruction) {
+			var val ssa.Value
+			switch x := in.(type) {
+			case *ssa.Store:
+				if _, ff, _ := fieldOf(x.Addr); ff != f {
+					return
+				}
+				if _, isAlloc := rootOf(x.Addr).(*ssa.Alloc); !isAlloc {
+					return
+				}
+				val = x.Val
+			case *ssa.MapUpdate:
+				// map-valued field (Extra): the values stored into the copy's fresh map
+				if _, ff, _ := fieldOf(in.(*ssa.MapUpdate).Map); ff != f {
+					if _, ff2, _ := loadedField(x.Map); ff2 != f {
+						return
+					}
+				}
+				val = x.Value
+			default:
+				return
+			}
+			switch v := val.(type) {
+			case *ssa.Slice:
+				if v.Max != nil && v.High != nil && sameExpr(v.Max, v.High) {
+					okc, how = true, "clipped with a three-index slice (max == len)"
+				}
+			case *ssa.MakeSlice, *ssa.MakeMap:
+				if _, isMap := f.Type().Underlying().(*types.Map); !isMap {
+					okc, how = true, "fresh slice"
+				}
+			case *ssa.Call:
+				if b, isB := v.Call.Value.(*ssa.Builtin); isB && b.Name() == "append" && len(v.Call.Args) > 0 {
+					if isNilConst(v.Call.Args[0]) {
+						okc, how = true, "copied by append(nil, …)"
+					}
+					if sl, isS := v.Call.Args[0].(*ssa.Slice); isS {
+						if k, isK := constInt(sl.High); isK && k == 0 && sl.Max == nil {
+							// x[:0] reuses the array: not a copy
+						}
+					}
+				}
+			}
+		})
+		pos := c.Pos(deep.Pos())
+		if okc {
+			obs = append(obs, ok(R, con, pos, how+"; appended to in "+appended[f]))
+		} else {
+			obs = append(obs, bad(R, con, pos, "the copy's slice shares its backing array with the original and with every other copy, and "+appended[f]+" appends to it: with spare capacity the append writes shared storage, so an element added to one use of a grouping shows up in (or is overwritten by) another use"))
+		}
+	}
 	return obs
 }
 
